@@ -3,6 +3,7 @@ package main
 import (
 	"fmt"
 	"sort"
+	"strings"
 
 	"verifh/machine"
 	"verifh/verifrt"
@@ -163,6 +164,13 @@ func (g *genState) newPod() *PodSpec {
 	if g.policy == "balloons" && r.Chance(0.2) {
 		ann[form("balloon.balloons."+rns)] = verifrt.Pick(r, []string{"bt0", "bt1", "default", "reserved"})
 	}
+	if g.prop == "C14" {
+		bad := []string{"", "{", "[1,2", "yes", "1e9", "-1", "true\n", "- a\n b", "\x00", "0-", "a,b,,", "999999999999999999999", "nil", "{\"a\":}", "duration: x", "- scope:\n    key: pod/name\n    operator: Foo\n", strings.Repeat("x", 5000)}
+		keys := []string{"prefer-shared-cpus", "prefer-isolated-cpus", "prefer-reserved-cpus", "hide-hyperthreads", "cpu.preserve", "memory.preserve", "memory-type", "cold-start", "affinity", "anti-affinity", "topologyhints", "allow.topologyhints", "deny.topologyhints", "prefer-cpu-priority", "rdtclass", "blockioclass", "balloon.balloons", "toptierlimit"}
+		for k := r.Range(0, 4); k > 0; k-- {
+			ann[form(verifrt.Pick(r, keys)+"."+rns)] = verifrt.Pick(r, bad)
+		}
+	}
 	if len(ann) > 0 {
 		p.Annotations = ann
 	}
@@ -195,6 +203,9 @@ func (g *genState) newCtr(pod *PodSpec) *CtrSpec {
 	g.nctr++
 	c := &CtrSpec{ID: fmt.Sprintf("ctr%d", g.nctr), Pod: pod.ID, Name: verifrt.Pick(r, []string{"c0", "c1", "c2"})}
 	c.MilliCPU = g.cpuChoices(pod.QoS)
+	if g.prop == "C14" {
+		c.NoLinux, c.NoResources, c.NoCPU, c.NoMemory = r.Chance(0.1), r.Chance(0.1), r.Chance(0.15), r.Chance(0.15)
+	}
 	switch pod.QoS {
 	case "Guaranteed":
 		c.LimitCPU = c.MilliCPU
@@ -334,6 +345,36 @@ func genPlan(prop, tier string, seed uint64, faults bool) *Plan {
 		}
 		if len(stopped) == 0 {
 			w[5] = 0
+		}
+		if prop == "C14" && r.Chance(0.3) {
+			// out-of-protocol event
+			evs := []string{"CreateContainer", "StartContainer", "UpdateContainer", "StopContainer", "RemoveContainer", "StopPodSandbox", "RemovePodSandbox", "RunPodSandbox"}
+			op.Kind, op.Ev = "x", verifrt.Pick(r, evs)
+			switch r.Intn(4) {
+			case 0: // unknown id
+				op.ID, op.Fault = fmt.Sprintf("ghost%d", r.Intn(5)), "unknown-id"
+			case 1: // duplicate / reordered event for a container the plugin knows (or knew)
+				if len(g.ctrs) > 0 {
+					op.ID, op.Fault = verifrt.Pick(r, g.ctrs).ID, "dup"
+				} else {
+					op.ID, op.Fault = "ghost0", "unknown-id"
+				}
+			case 2: // pod-level event for a pod id
+				if len(g.pods) > 0 {
+					op.ID, op.Fault = verifrt.Pick(r, g.pods).ID, "dup"
+				} else {
+					op.ID, op.Fault = "ghost-pod", "unknown-id"
+				}
+			case 3: // a container of an unknown pod / with absent sub-messages
+				op.ID, op.Fault = fmt.Sprintf("ghost%d", 5+r.Intn(5)), "unknown-id"
+			}
+			c := &CtrSpec{ID: op.ID, Name: "ghost", MilliCPU: r.Intn(3000), NoLinux: r.Chance(0.3), NoResources: r.Chance(0.3), NoCPU: r.Chance(0.3), NoMemory: r.Chance(0.3)}
+			if len(g.pods) > 0 && r.Chance(0.5) {
+				c.Pod = verifrt.Pick(r, g.pods).ID
+			}
+			op.Ctr = c
+			p.Ops = append(p.Ops, op)
+			continue
 		}
 		switch r.Weighted(w) {
 		case 0:
